@@ -178,6 +178,16 @@ def cases(tier, seed, focus=None):
         elif c["clause"] == "tm_robust":
             c["rows"] = []
         out.append(c)
+    # tall matrices with FEW trimmed rows and huge outliers (generation 7: a sum-minus-extremes 'fast path' taken only
+    # above a row-count threshold per trimmed value lets an outlier absorb the honest values)
+    for i in range(8 if not thorough else 120):
+        r = rng_l
+        dtype = "float32" if i % 2 else "float64"
+        c = {"m": r.choice([18, 20, 33, 40]), "n": r.choice([3, 8]), "family": r.choice(FAMILIES), "seed": r.randrange(10**9),
+             "scale": _scale(r, dtype), "dtype": dtype, "clause": "tm_value" if i % 4 == 3 else "tm_robust",
+             "b": r.choice([1, 1, 2]), "ckind": "huge"}
+        c["rows"] = sorted(r.sample(range(c["m"]), r.randint(1, c["b"])))
+        out.append(c)
     # ---- reject grid
     grid = [{"clause": "reject", "agg": "TrimmedMean", "b": b, "m": m, "n": n}
             for m in range(0, 10) for b in range(0, 6) for n in (1, 3)]
